@@ -1,5 +1,5 @@
 //! Event alphabet and deterministic stream generator for the lifecycle explorers (shared by mc and mc-sched).
-use crate::core::dltgen::{mk_msg, CTRL_REQUEST_NV, MTIN_LOG_INFO_V};
+use crate::core::dltgen::{mk_msg, CTRL_REQUEST_NV, CTRL_RESPONSE_NV, MTIN_LOG_INFO_V};
 use adlt::dlt::DltMessage;
 
 const S: u64 = 1_000_000;
@@ -21,6 +21,14 @@ pub enum Mode {
     TsMax,
     NoTmsp,
     CtrlReq,
+    /// control response GET_SOFTWARE_VERSION: non-verbose with a version string
+    SwVersNv,
+    /// ... verbose: service id as UINT32 argument, version as string argument
+    SwVersV,
+    /// ... verbose with an empty string argument
+    SwVersVEmpty,
+    /// ... verbose with the service id argument only
+    SwVersVNoArg,
 }
 #[derive(Clone, Copy, Debug, PartialEq, Eq)]
 pub struct Sym {
@@ -51,6 +59,10 @@ impl Sym {
             "TsMax" => Mode::TsMax,
             "NoTmsp" => Mode::NoTmsp,
             "CtrlReq" => Mode::CtrlReq,
+            "SwVersNv" => Mode::SwVersNv,
+            "SwVersV" => Mode::SwVersV,
+            "SwVersVEmpty" => Mode::SwVersVEmpty,
+            "SwVersVNoArg" => Mode::SwVersVNoArg,
             _ => return None,
         };
         Some(Sym { ecu, adv_ms, mode })
@@ -119,6 +131,13 @@ pub fn alphabet(n: usize) -> Vec<Sym> {
     v
 }
 
+/// software-version control responses (they are looked into by the lifecycle detection) among normal messages
+pub fn sw_version_alphabet() -> Vec<Sym> {
+    use Mode::*;
+    let s = |ecu: u8, adv_ms: i64, mode: Mode| Sym { ecu, adv_ms, mode };
+    vec![s(0, 2000, Cont), s(0, 2000, New), s(0, 2000, SwVersNv), s(0, 2000, SwVersV), s(0, 2000, SwVersVEmpty), s(0, 2000, SwVersVNoArg), s(1, 2000, Cont), s(1, 2000, SwVersVEmpty)]
+}
+
 /// small alphabet around suspend/resume detection and start-estimate drift (full-depth family "resume_chains")
 pub fn resume_alphabet() -> Vec<Sym> {
     use Mode::*;
@@ -166,6 +185,7 @@ pub fn gen_stream(syms: &[Sym], uptime0_ms: u64) -> Vec<DltMessage> {
         let mut with_tmsp = true;
         let mut ext = Some((MTIN_LOG_INFO_V, 0u8, *b"APID", *b"CTID"));
         let mut new_lc = false;
+        let mut payload_override: Option<Vec<u8>> = None;
         let ts_us: u64 = match sy.mode {
             Mode::Cont => now.saturating_sub(e.boot),
             Mode::New => {
@@ -209,6 +229,35 @@ pub fn gen_stream(syms: &[Sym], uptime0_ms: u64) -> Vec<DltMessage> {
                 ext = Some((CTRL_REQUEST_NV, 0u8, *b"APID", *b"CTID"));
                 now.saturating_sub(e.boot)
             }
+            Mode::SwVersNv | Mode::SwVersV | Mode::SwVersVEmpty | Mode::SwVersVNoArg => {
+                let (vmm, noar, pl): (u8, u8, Vec<u8>) = match sy.mode {
+                    Mode::SwVersNv => {
+                        let mut p = vec![19, 0, 0, 0, 0, 5, 0, 0, 0];
+                        p.extend_from_slice(b"SW1.0");
+                        (CTRL_RESPONSE_NV, 0, p)
+                    }
+                    m => {
+                        // UINT32 argument (type info 0x43) = service id 19
+                        let mut p = vec![0x43, 0, 0, 0, 19, 0, 0, 0];
+                        let noar = match m {
+                            Mode::SwVersV => {
+                                p.extend_from_slice(&[0x00, 0x02, 0, 0, 6, 0]);
+                                p.extend_from_slice(b"SW2.0\0");
+                                2
+                            }
+                            Mode::SwVersVEmpty => {
+                                p.extend_from_slice(&[0x00, 0x02, 0, 0, 0, 0]);
+                                2
+                            }
+                            _ => 1,
+                        };
+                        (CTRL_RESPONSE_NV | 1, noar, p)
+                    }
+                };
+                ext = Some((vmm, noar, *b"APID", *b"CTID"));
+                payload_override = Some(pl);
+                now.saturating_sub(e.boot)
+            }
         };
         let ts_dms = (ts_us / 100).min(u32::MAX as u64) as u32;
         if with_tmsp && sy.mode != Mode::CtrlReq && sy.mode != Mode::TsMax {
@@ -229,7 +278,7 @@ pub fn gen_stream(syms: &[Sym], uptime0_ms: u64) -> Vec<DltMessage> {
             ts_dms,
             with_tmsp,
             ext,
-            vec![i as u8, (i >> 8) as u8],
+            payload_override.unwrap_or_else(|| vec![i as u8, (i >> 8) as u8]),
         ));
     }
     out
